@@ -2,6 +2,7 @@
 from __future__ import annotations
 
 import ast
+import hashlib
 import json
 import random
 import warnings
@@ -58,6 +59,20 @@ def facts(s):
     return f
 
 
+def _shrink(t):
+    """Long strings inside a projected term -> a digest (the same on both sides of a comparison); long lists of equal items
+    -> their first items plus a count."""
+    if isinstance(t, str):
+        return t if len(t) <= 2000 else f"big:{hashlib.sha1(t.encode('utf-8', 'surrogatepass')).hexdigest()}:{len(t)}"
+    if isinstance(t, list):
+        if len(t) > 200 and all(x == t[0] for x in t):
+            return [_shrink(t[0]), f"times:{len(t)}"]
+        return [_shrink(x) for x in t]
+    if isinstance(t, dict):
+        return {k: _shrink(v) for k, v in t.items()}
+    return t
+
+
 def collect(ctx: Ctx, profile: str, quick: bool):
     import typelib
     from typelib import serdes
@@ -67,7 +82,8 @@ def collect(ctx: Ctx, profile: str, quick: bool):
     warnings.simplefilter("ignore")
     clear_typelib_caches()
     events, meta = [], []
-    texts = list(dict.fromkeys(TEXT_POOL + EXTRA_TEXTS))
+    # (two texts of more than 64 KiB: prose, and a JSON list; long texts are replaced by a digest on both sides of an event)
+    texts = list(dict.fromkeys(TEXT_POOL + EXTRA_TEXTS + ["lorem ipsum " * 6000, "=" * 70000, json.dumps(["item"] * 9000)]))
     # ---- load / strload / decode over the text pool in all carriers, plus non-text inputs
     for s in texts:
         f = facts(s)
@@ -91,6 +107,9 @@ def collect(ctx: Ctx, profile: str, quick: bool):
             events.append({"ev": "load", "text": True, "isjson": False, "json": f["json"], "isliteral": False,
                            "astext": project(s), "out": out, "same": True, "intact": intact(x, s)})
             meta.append({"fn": "decode", "carrier": c, "text": s})
+    for e in events:
+        for key in ("json", "astext", "out"):
+            e[key] = _shrink(e[key])
     import array
     for x in (None, 1, 1.5, True, [1], {"a": 1}, (1, 2), object(), env.obj("D1")(a=1, b="s"), array.array("i", [1, 2, 3]), array.array("d", [1.5]),
               range(3), frozenset({1})):
@@ -103,9 +122,12 @@ def collect(ctx: Ctx, profile: str, quick: bool):
                            "astext": {"k": "none", "cls": "NoneType"}, "out": out, "same": same, "intact": True})
             meta.append({"fn": fname, "carrier": "non-text", "text": repr(x)[:40]})
     # ---- carrier freedom and text/value equivalence per type
-    for T in types:
+    small = [s for s in texts if len(s) <= 5000]
+    big = [s for s in texts if len(s) > 5000]
+    for ti, T in enumerate(types):
         ann = env.annotation(T)
-        pool = rng.sample(texts, 10 if quick else 24) + ALWAYS
+        # (the texts of more than 64 KiB go to every 97th type only: each costs 16 calls with up to 9,000 elements)
+        pool = rng.sample(small, 10 if quick else 24) + ALWAYS + (big if ti % 97 == 0 else [])
         wires = []
         for v in values(T, env, rng, 2):
             try:
